@@ -37,7 +37,7 @@ def asan_bin(drv, cfg):
 
 
 def run_asan_shard(drv, cfg, seed, shard, nshards):
-    out = os.path.join(drv.WORK, "asan-%s-%d.json" % (cfg, shard))
+    out = os.path.join(drv.WORK, "asan-%s-%d-%s.json" % (cfg, shard, drv.RUNID))
     env = dict(drv.ENV)
     env["ASAN_OPTIONS"] = "detect_leaks=0:halt_on_error=1:exitcode=66:abort_on_error=0"
     cmd = [asan_bin(drv, cfg), "run", "C01", "--tier", "quick", "--seed", str(seed), "--shard", str(shard),
